@@ -450,7 +450,7 @@ def generate(tier, seed):
                         letters.append((m, t, args))
             for st in starts:
                 for seq in itertools.product(letters, repeat=depth):
-                    if depth == 3 and rnd.random() > (0.25 if own != "var" else 0.04):
+                    if depth == 3 and rnd.random() > {"var": 0.04, "fn": 0.08}.get(own, 0.25):
                         continue
                     if depth == 2 and own in ("var", "fn") and seq[0][1] != seq[1][1] and not (seq[0][0] in BINARY or seq[1][0] in BINARY):
                         # two single-owner operations on different owners touch disjoint storage and commute; each of
